@@ -82,9 +82,10 @@ def oracle(s, d, c, r, text, engine):
     n = max(d, c)
     if len(las.curves) != n:
         return "%d curves, expected max(d=%d, c=%d)" % (len(las.curves), d, c)
-    lens = [len(cv.data) for cv in las.curves]
-    if any(x != r for x in lens):
-        return "curve lengths %r, expected all %d" % (lens, r)
+    import numpy as np
+    shapes = [np.shape(cv.data) for cv in las.curves]
+    if any(x != (r,) for x in shapes):
+        return "curve data shapes %r, expected all (%d,): the curves are not one-dimensional arrays of one common length" % (shapes, r)
     for j, cv in enumerate(las.curves):
         if j < d:
             m, u, v, de = s.curves[j]
